@@ -461,6 +461,10 @@ def run(ctx, rep):
         check_fresh_return(ctx, eff, rep, ctx.api(nm), "A4", nm)
     from rules.shared import check_table_owned
     check_table_owned(ctx, rep, "A4")
+    # the alphabet's filter compares with the table's value; decoding uses get_bonding_capacity: both must read the listed
+    # value whenever the key is listed -- a listed capacity of 0 included (C06/Q2, shared)
+    from rules.C06 import check_capacity_lookup
+    check_capacity_lookup(ctx, rep, eff, table_vars, "A3")
     # ---- A5
     check_fresh_return(ctx, eff, rep, getter, "A5", "alphabet")
     rep.floor("A1", 2)
